@@ -36,7 +36,8 @@ claim("C09", "model_checking", "line-count: " + PURE,
       "TLA+ spec Rules.tla (CountStep loop vs NonBlank contract) model-checked with TLC; spec->impl replay in three "
       "layouts; impl->spec trace validation (TraceRules.tla)", "DESIGN.md §6 C06-C09")
 
-DT = ("TLC enumerates every edit script (<= MaxOps ops over K/D/I/M) x block placement x comment layout x "
+DT = ("TLC enumerates every edit script (<= MaxOps ops over K/D/I/M plus the terminator-only ops N/n of the file's last "
+      "line) x block placement x comment layout x "
       "character-level edit kind of DiffTouch.tla, checks that the ideal walk meets the three-valued contract "
       "(MUST / MUSTNOT / gray) and that the stepwise DiffWalk actions equal the recursive walk, and emits for every "
       "behaviour the contract plus the prediction of the as-coded walk under each repair of the named deviations; "
@@ -163,7 +164,8 @@ claim("C10", "model_checking", "TLC enumerates every comment layout x content li
 claim("C15", "model_checking", "TLC checks Scope.tla -- the walk loop and the diff loop of parse_blocks as actions, in every "
       "file order -- against the set-algebra contract Examined = ((Walk \\ Hidden \\ GitIgnored) /\\ Allow \\/ DiffFiles) "
       "\\ Ignore with the four documented glob forms written out and exactly one leading b/ removed from diff paths, over a "
-      "tree with nested directories, directories named a and b, a name with a space, a hidden and a git-ignored file; each "
+      "tree with nested directories, directories named a and b, a name with a space, a name git writes as a quoted string "
+      "in diff headers (non-ASCII; switch FixQ1), a directory named like a file, a hidden and a git-ignored file; each "
       "emitted scenario (globs x ignore globs x diff subset x interactive or not) is materialised on disk -- files out of "
       "scope carry an unclosed tag, so any leak is an error -- and listed through the real CLI from the root or a "
       "sub-directory.",
@@ -179,11 +181,17 @@ claim("C04", "exploration", "The specification's terminal states are Report (exi
       "NBSP / emoji / combining characters) and per diff line class (headers, hunk headers, body lines that look like "
       "headers, multi-byte -/+ pairs); each soup is parsed under the suffixes of its family in scan, list and diff mode "
       "(diff = the soup against itself with one character changed into a sibling sharing its leading UTF-8 bytes) with "
-      "panic capture and a watchdog; a sample runs through the real CLI (exit status 0/1 only).",
+      "panic capture and a watchdog; a sample runs through the real CLI (exit status 0/1 only). Deep.tla is the second "
+      "generator: every (construct, depth) pair -- operator chains, brackets, markup, tag nesting, long lines and "
+      "comments, and the constructs a grammar's external scanner keeps on a stack (indentation, heredocs, raw strings, "
+      "templates, YAML block maps, Markdown containers) at depths 1..20000 -- through the real process in list, scan and "
+      "diff mode; the as-coded model carries the named deviation DP1 (unbounded scanner stack aborts in tree-sitter), to "
+      "which a crash is attributed only where the model predicts it and the process died in that assertion.",
       "Exploration, not a decision procedure over all UTF-8 strings: exhaustive over a finite token space. Diffs that "
       "git cannot produce (a +++ header without ---) are excluded: the unidiff dependency panics on them.",
-      "TLA+ spec Soup.tla as exhaustive generator (TLC) + terminal-state contract; replay of every soup in-process "
-      "(catch_unwind, watchdog) and a CLI sample", "DESIGN.md §6 C04")
+      "TLA+ specs Soup.tla (token sequences built by an Extend action) and Deep.tla (construct x depth, deviation switch "
+      "FixDP1) as exhaustive generators (TLC) + terminal-state contract; replay of every soup in-process (catch_unwind, "
+      "watchdog), a CLI sample, every Deep pair through the real process", "DESIGN.md §6 C04, §7.2 DP1")
 claim("C16", "model_checking", "TLC enumerates every base name (<= MaxComp dot-separated components over a component alphabet "
       "with registered, upper-cased, compound and unknown suffixes, empty components) x one of 7 -E remappings of "
       "Grammar.tla and checks the dot-walk (TrySuffix / FallbackWholeName) against GrammarOf, with the 39-entry table as "
